@@ -1026,6 +1026,18 @@ class Analyzer:
                         res = (0, 0)
                 return AV(iv=res, cmp=("inrange", ("place", item.ref), lo[0], hi[1]))
             return AV(iv=(0, 1))
+        # riN::<MIN, MAX>::contains(x): a range test of a primitive against the type's own bounds
+        if path.startswith("util::rangeint::ri") and path.endswith("::contains") and t.get("args"):
+            mb = re.search(r"ri\d+::<(-?\d+), (-?\d+)>::contains$", t.get("fn", ""))
+            if mb and t["args"][0].get("o") != "c":
+                lo_, hi_ = int(mb.group(1)), int(mb.group(2))
+                res = (0, 1)
+                if a0.iv is not None:
+                    if lo_ <= a0.iv[0] and a0.iv[1] <= hi_:
+                        res = (1, 1)
+                    elif a0.iv[1] < lo_ or a0.iv[0] > hi_:
+                        res = (0, 0)
+                return AV(iv=res, cmp=("inrange", _opkey(t["args"][0]), lo_, hi_))
         mck = re.match(r"core::num::<impl (\w+)>::checked_(add|sub|mul|neg|abs)$", path)
         if mck and a0.iv is not None and mck.group(1) in PRIM:
             rr_ = PRIM[mck.group(1)]
